@@ -359,10 +359,21 @@ pub fn run_fasta(c: &Case) -> String {
                     Some(Ok(r)) => format!("R:{}", fa_rec(&r)),
                 }
             }),
-            Op::Owned => guarded(|| match rdr.records().next() {
-                None => "N".to_string(),
-                Some(Err(e)) => fa_err(&e),
-                Some(Ok(r)) => format!("O:{}", fa_owned(&r)),
+            Op::Owned => guarded(|| {
+                // the owned-record iterator's size hint must bracket what it then delivers (C20)
+                let mut it = rdr.records();
+                let (lo, hi) = it.size_hint();
+                let item = it.next();
+                let hint_ok = match &item {
+                    None => lo == 0,
+                    Some(_) => hi.map_or(true, |h| h >= 1),
+                };
+                let mark = if hint_ok { String::new() } else { format!("!hint.{}.{}", lo, hi.map_or("-".to_string(), |h| h.to_string())) };
+                match item {
+                    None => format!("N{}", mark),
+                    Some(Err(e)) => fa_err(&e) + &mark,
+                    Some(Ok(r)) => format!("O:{}{}", fa_owned(&r), mark),
+                }
             }),
             Op::Set(j) | Op::Exact(j, _) => {
                 let n = if let Op::Exact(_, n) = op { Some(*n) } else { None };
@@ -602,10 +613,21 @@ pub fn run_fastq(c: &Case) -> String {
                     Some(Ok(r)) => format!("R:{}", fq_rec(&r)),
                 }
             }),
-            Op::Owned => guarded(|| match rdr.records().next() {
-                None => "N".to_string(),
-                Some(Err(e)) => fq_err(&e),
-                Some(Ok(r)) => format!("O:{}", fq_owned(&r)),
+            Op::Owned => guarded(|| {
+                // the owned-record iterator's size hint must bracket what it then delivers (C20)
+                let mut it = rdr.records();
+                let (lo, hi) = it.size_hint();
+                let item = it.next();
+                let hint_ok = match &item {
+                    None => lo == 0,
+                    Some(_) => hi.map_or(true, |h| h >= 1),
+                };
+                let mark = if hint_ok { String::new() } else { format!("!hint.{}.{}", lo, hi.map_or("-".to_string(), |h| h.to_string())) };
+                match item {
+                    None => format!("N{}", mark),
+                    Some(Err(e)) => fq_err(&e) + &mark,
+                    Some(Ok(r)) => format!("O:{}{}", fq_owned(&r), mark),
+                }
             }),
             Op::Set(j) | Op::Exact(j, _) => {
                 let n = if let Op::Exact(_, n) = op { Some(*n) } else { None };
